@@ -316,8 +316,11 @@ class ShareableThreadLock:
                 self._acquired_by[thread_id] -= 1
                 if not self._acquired_by[thread_id]:
                     del self._acquired_by[thread_id]  # NOTE: GC
-                    if not self._acquired_by:
-                        self._condition.notify_all()
+                    # NOTE: Waiters re-check their predicate. A waiter that itself
+                    # holds the lock shared (upgrade) must be woken up as soon as
+                    # the last *other* thread leaves, so we cannot wait for
+                    # self._acquired_by to be empty.
+                    self._condition.notify_all()
             finally:
                 self._condition.release()
 
